@@ -76,6 +76,8 @@ type Gen struct {
 	curBlock *ssa.BasicBlock
 	onlyProp string
 	sccOf    map[string]int
+	frames   []havocFrame
+	siteSeen map[string]map[ssa.Instruction]int
 }
 
 type retInfo struct {
